@@ -10,7 +10,7 @@ from ..seqengine import WorldPool, finding_signature, seq_witness, seq_replay
 
 ID = "C04"
 LEVEL = "exploration"
-RULE = ("k = 2..4 pids drawn from prefix-related names (mat, matt, matthew, atthew, MATT) are bound to one "
+RULE = ("k = 2..4 pids drawn from prefix-related names (mat, matt, matthew, MATT and a non-ASCII name) are bound to one "
         "content (by store_object or store-then-tag); they are deleted in EVERY order, and between consecutive "
         "deletes one 'noise' call from a menu of 11 is made (delete_if_invalid_object with wrong checksum / wrong "
         "size on the shared object, a store on a bound pid with other content, a store of the shared content with "
@@ -25,7 +25,7 @@ RULE = ("k = 2..4 pids drawn from prefix-related names (mat, matt, matthew, atth
         "pids still bound, call shape, outcome) observations with at least one pid still bound.")
 ASSUMPTIONS = []
 
-NAMES = ["matt", "matthew", "mat", "atthew", "MATT"]
+NAMES = ["matt", "matthew", "mat", "\u65e5\u672c\u8a9e.matt", "MATT"]
 SPEC = {"S": {"cseed": 41, "size": 8200}, "O": {"cseed": 42, "size": 50}}
 DOCS = {"d": b"<doc/>"}
 TAGS_PREFIX = ("state:retriev", "state:retrieve-bytes", "state:model:object", "value:bytes")
